@@ -22,9 +22,15 @@ ASSUMPTIONS = ["dyadic units: start + i*hop and the comparisons of the implement
 
 _REC = data.Recording(path="a.wav", duration=1000.0, channels=1, samplerate=8000)
 
+_REC2 = data.Recording(path="b.wav", duration=2000.0, channels=2, samplerate=44100)
+
 def _run(case, u):
     clip = data.Clip(recording=_REC, start_time=case["s"] * u, end_time=case["e"] * u,
                      uuid=uuid.UUID(int=1000 + case["s"] * 1024 + case["e"]))
+    # the same bounds on ANOTHER recording under another parent id, segmented right afterwards in the same process:
+    # a result must depend on its own arguments only
+    other = data.Clip(recording=_REC2, start_time=case["s"] * u, end_time=case["e"] * u,
+                      uuid=uuid.UUID(int=5_000_000 + case["s"] * 1024 + case["e"]))
     kw = {}
     if case["h"]:
         kw["hop"] = case["h"][0] * u
@@ -33,12 +39,14 @@ def _run(case, u):
     try:
         a = list(segment_clip(clip, case["d"] * u, **kw))
         b = list(segment_clip(clip, case["d"] * u, **kw))
+        c = list(segment_clip(other, case["d"] * u, **kw))
     except Exception as ex:
-        return {"raised": type(ex).__name__, "w": [], "samerec": True, "ids_distinct": True, "ids_repeat": True}
+        return {"raised": type(ex).__name__, "w": [], "w2": [], "samerec": True, "ids_distinct": True, "ids_repeat": True}
     return {"raised": "",
             "w": [[ticks(x.start_time, u), ticks(x.end_time, u)] for x in a],
-            "samerec": all(x.recording == clip.recording for x in a),
-            "ids_distinct": len({x.uuid for x in a}) == len(a),
+            "w2": [[ticks(x.start_time, u), ticks(x.end_time, u)] for x in c],
+            "samerec": all(x.recording == clip.recording for x in a) and all(x.recording == other.recording for x in c),
+            "ids_distinct": len({x.uuid for x in a}) == len(a) and len({x.uuid for x in c}) == len(c),
             "ids_repeat": [x.uuid for x in a] == [x.uuid for x in b]}
 
 def execute(case):
